@@ -236,6 +236,10 @@ func (c *_cache) doSync(list []metav1.Object) []Event {
 		case accept && current.version < entry.version:
 			events = append(events, NewEvent(EventTypeUpdate, entry.object))
 			c.items[key] = entry
+		case !found:
+			// unknown object rejected by the filter: nothing cached to keep
+			// (current is the zero entry here; its nil object must not reach the filter)
+			continue
 		case current.version >= entry.version:
 			if !c.filter.Accept(current.object) {
 				continue
